@@ -2,6 +2,10 @@ import VirVerif.Model.DepProtocol
 import VirVerif.Model.DepFit
 import Mathlib.Data.List.Basic
 import Mathlib.Tactic.Linarith
+import Mathlib.Tactic.Ring
+import Mathlib.Tactic.LinearCombination
+import Mathlib.Tactic.FieldSimp
+import Mathlib.Algebra.Order.Field.Basic
 
 namespace VirVerif.C14
 open VirVerif.Dep
@@ -747,5 +751,274 @@ example : ((runHistory 4 diamond [3, 1, 2, 0]).version 3, (runHistory 4 diamond 
 example : (runHistory 4 diamond [3, 1, 2, 0]).log = [3, 2, 3, 1, 0] := by decide
 example : (runHistory 4 diamond [3, 1, 2, 0, 0]).version 3 = 4 := by decide
 example : (runHistory 4 diamond [3, 1, 2]).version 3 = 0 := by decide  -- nothing fitted before the root is
+
+/-! ## Part 2 — bounds, optimiser dispatch, linear least squares -/
+
+section Bounds
+variable {α : Type} [Preorder α]
+
+/-- the declared bounds admit the parameter vector `p` (`None` = unbounded) -/
+def Admissible (bs : List (Option α × Option α)) (p : List α) : Prop :=
+  List.Forall₂ (fun b x => (∀ l, b.1 = some l → l ≤ x) ∧ (∀ u, b.2 = some u → x ≤ u)) bs p
+
+/-- `p` lies in the box handed to `curve_fit` -/
+def InBox (lo hi p : List α) : Prop := List.Forall₂ (· ≤ ·) lo p ∧ List.Forall₂ (· ≤ ·) p hi
+
+omit [Preorder α] in
+theorem convertBounds_length (ninf pinf : α) (bs : List (Option α × Option α)) :
+    (convertBounds ninf pinf bs).1.length = bs.length ∧
+    (convertBounds ninf pinf bs).2.length = bs.length := by
+  simp [convertBounds]
+
+/-- **`convert_bounds_for_curve_fit`**: the box `[lower_bounds, upper_bounds]` admits exactly the
+parameter vectors the declared bounds admit (parameter `i` gets *its* pair, lower stays lower),
+`ninf`/`pinf` being below/above every parameter value. -/
+theorem convertBounds_spec (ninf pinf : α) (bs : List (Option α × Option α)) (p : List α)
+    (hinf : ∀ x ∈ p, ninf ≤ x ∧ x ≤ pinf) :
+    Admissible bs p ↔
+      InBox (convertBounds ninf pinf bs).1 (convertBounds ninf pinf bs).2 p := by
+  induction bs generalizing p with
+  | nil =>
+    cases p with
+    | nil => simp [Admissible, InBox, convertBounds]
+    | cons x p => simp [Admissible, InBox, convertBounds]
+  | cons b bs ih =>
+    cases p with
+    | nil => simp [Admissible, InBox, convertBounds]
+    | cons x p =>
+      have ih' := ih p (fun y hy => hinf y (by simp [hy]))
+      have hx := hinf x (by simp)
+      unfold Admissible InBox convertBounds at *
+      simp only [List.map_cons, List.forall₂_cons] at *
+      rw [ih']
+      obtain ⟨b1, b2⟩ := b
+      cases b1 <;> cases b2 <;> simp [hx.1, hx.2] <;> tauto
+end Bounds
+
+example : convertBounds (-100 : Int) 100 [(some 0, none), (none, some 5)] = ([0, -100], [100, 5]) := by
+  decide
+
+section Dispatch
+variable {α : Type}
+
+/-- **constraints reach the optimiser**: when constraints are declared and the dispatch produces an
+optimiser call, that call is SLSQP started at `p0` with the declared bounds and with exactly the
+declared constraints among its arguments (and no weights were declared). -/
+theorem constraints_reach_optimiser (ninf pinf : α) (spec : DepSpec α) (p0 : List α)
+    (w : Option (List α)) (cs : List Nat) (call : OptCall α)
+    (hc : spec.constraints = some cs) (h : dispatch ninf pinf spec p0 w = .ok call) :
+    call = .slsqp p0 spec.bounds cs ∧ w = none := by
+  unfold dispatch at h
+  rw [hc] at h
+  cases w with
+  | some v => simp at h
+  | none =>
+    simp only [Except.ok.injEq] at h
+    exact ⟨h.symm, rfl⟩
+
+/-- without constraints: `curve_fit` at `p0`, `sigma = weights(x, y)`, converted bounds -/
+theorem unconstrained_uses_curve_fit (ninf pinf : α) (spec : DepSpec α) (p0 : List α)
+    (w : Option (List α)) (hc : spec.constraints = none) :
+    dispatch ninf pinf spec p0 w =
+      .ok (.curveFit p0 w (spec.bounds.map (convertBounds ninf pinf))) := by
+  unfold dispatch; rw [hc]
+
+/-- constraints together with a weights callable are refused (`NotImplementedError`) -/
+theorem constrained_weighted_refused (ninf pinf : α) (spec : DepSpec α) (p0 : List α)
+    (v : List α) (cs : List Nat) (hc : spec.constraints = some cs) :
+    dispatch ninf pinf spec p0 (some v) = .error .notImplemented := by
+  unfold dispatch; rw [hc]
+
+/-- defect #9 (model of the code before the repair): a declared constraint is not among the
+arguments of the optimiser call. -/
+theorem constraints_dropped_counterexample :
+    ∃ (spec : DepSpec Int) (p0 : List Int) (cs : List Nat), spec.constraints = some cs ∧ cs ≠ [] ∧
+      dispatchOld 0 0 spec p0 none = .ok (.slsqp p0 spec.bounds []) :=
+  ⟨{ bounds := none, constraints := some [0] }, [1, 1], [0], rfl, by simp, rfl⟩
+
+example : dispatch (0 : Int) 0 { bounds := none, constraints := some [0, 1] } [1, 1] none
+    = .ok (.slsqp [1, 1] none [0, 1]) := rfl
+end Dispatch
+
+section Lsq
+variable {α : Type} [CommRing α] [LinearOrder α] [IsStrictOrderedRing α]
+
+omit [LinearOrder α] [IsStrictOrderedRing α] in
+theorem dotN_add (n : Nat) (a x d : Nat → α) :
+    dotN n a (fun j => x j + d j) = dotN n a x + dotN n a d := by
+  induction n with
+  | zero => simp [dotN]
+  | succ n ih => simp only [dotN]; rw [ih]; ring
+
+omit [LinearOrder α] [IsStrictOrderedRing α] in
+theorem dotN_lin_left (n : Nat) (c : α) (a g d : Nat → α) :
+    dotN n (fun j => c * a j + g j) d = c * dotN n a d + dotN n g d := by
+  induction n with
+  | zero => simp [dotN]
+  | succ n ih => simp only [dotN]; rw [ih]; ring
+
+omit [LinearOrder α] [IsStrictOrderedRing α] in
+theorem dotN_zero_left (n : Nat) (g d : Nat → α) (hg : ∀ j, j < n → g j = 0) : dotN n g d = 0 := by
+  induction n with
+  | zero => simp [dotN]
+  | succ n ih =>
+    simp only [dotN]
+    rw [ih (fun j hj => hg j (by omega)), hg n (by omega)]; ring
+
+/-- `Σ w (row · d)²` -/
+def quad (n : Nat) : List (Obs α) → (Nat → α) → α
+  | [], _ => 0
+  | o :: os, d => o.w * (dotN n o.row d * dotN n o.row d) + quad n os d
+
+omit [LinearOrder α] [IsStrictOrderedRing α] in
+theorem grad_cons (n : Nat) (o : Obs α) (os : List (Obs α)) (x : Nat → α) :
+    grad n (o :: os) x = fun j => (o.w * (dotN n o.row x - o.y)) * o.row j + grad n os x j := by
+  funext j; rfl
+
+omit [LinearOrder α] [IsStrictOrderedRing α] in
+/-- exact second-order expansion of the weighted squared residual -/
+theorem sse_add (n : Nat) (obs : List (Obs α)) (x d : Nat → α) :
+    sse n obs (fun j => x j + d j) =
+      sse n obs x + 2 * dotN n (grad n obs x) d + quad n obs d := by
+  induction obs with
+  | nil =>
+    have : grad n ([] : List (Obs α)) x = fun _ => 0 := by funext j; rfl
+    simp only [sse, quad, this]
+    rw [dotN_zero_left n _ d (fun _ _ => rfl)]; ring
+  | cons o os ih =>
+    rw [grad_cons, dotN_lin_left]
+    simp only [sse, quad]
+    rw [ih, dotN_add]; ring
+
+theorem quad_nonneg (n : Nat) (obs : List (Obs α)) (d : Nat → α) (hw : ∀ o ∈ obs, 0 ≤ o.w) :
+    0 ≤ quad n obs d := by
+  induction obs with
+  | nil => simp [quad]
+  | cons o os ih =>
+    simp only [quad]
+    have h1 := mul_nonneg (hw o (by simp)) (mul_self_nonneg (dotN n o.row d))
+    have h2 := ih (fun p hp => hw p (by simp [hp]))
+    linarith
+
+/-- **normal equations minimise** (any ordered commutative ring, any number `n` of parameters,
+any number of observations, non-negative weights): if `Aᵀ W (A x − y) = 0` then the weighted
+squared residual at `x` is no larger than at any other parameter vector `z`. -/
+theorem normal_equations_minimise (n : Nat) (obs : List (Obs α)) (x : Nat → α)
+    (hw : ∀ o ∈ obs, 0 ≤ o.w) (hne : ∀ j, j < n → grad n obs x j = 0) (z : Nat → α) :
+    sse n obs x ≤ sse n obs z := by
+  have hz : z = fun j => x j + (z j - x j) := by funext j; ring
+  rw [hz, sse_add, dotN_zero_left n _ _ hne]
+  have := quad_nonneg n obs (fun j => z j - x j) hw
+  linarith
+
+/-- the executable certificate check is sound -/
+theorem isNormalSolution_sound (n : Nat) (obs : List (Obs α)) (x : Nat → α)
+    (hw : ∀ o ∈ obs, 0 ≤ o.w) (h : isNormalSolution n obs x = true) (z : Nat → α) :
+    sse n obs x ≤ sse n obs z := by
+  apply normal_equations_minimise n obs x hw
+  intro j hj
+  unfold isNormalSolution at h
+  rw [List.all_eq_true] at h
+  simpa using h j (List.mem_range.mpr hj)
+
+theorem quad_eq_zero (n : Nat) (obs : List (Obs α)) (d : Nat → α) (hw : ∀ o ∈ obs, 0 < o.w)
+    (h : quad n obs d = 0) : ∀ o ∈ obs, dotN n o.row d = 0 := by
+  induction obs with
+  | nil => intro o ho; cases ho
+  | cons o os ih =>
+    simp only [quad] at h
+    have hw' : ∀ p ∈ os, 0 ≤ p.w := fun p hp => le_of_lt (hw p (by simp [hp]))
+    have h1 := mul_nonneg (le_of_lt (hw o (by simp))) (mul_self_nonneg (dotN n o.row d))
+    have h2 := quad_nonneg n os d hw'
+    have h3 : o.w * (dotN n o.row d * dotN n o.row d) = 0 := by linarith
+    have h4 : quad n os d = 0 := by linarith
+    intro p hp
+    rcases List.mem_cons.mp hp with rfl | hp
+    · rcases mul_eq_zero.mp h3 with h5 | h5
+      · exact absurd h5 (ne_of_gt (hw p (by simp)))
+      · exact mul_self_eq_zero.mp h5
+    · exact ih (fun q hq => hw q (by simp [hq])) h4 p hp
+
+/-- **uniqueness** for a design of full column rank and positive weights: any parameter vector
+with the same (minimal) residual coincides with the solution of the normal equations. -/
+theorem normal_equations_unique (n : Nat) (obs : List (Obs α)) (x : Nat → α)
+    (hw : ∀ o ∈ obs, 0 < o.w) (hne : ∀ j, j < n → grad n obs x j = 0)
+    (hrank : ∀ d : Nat → α, (∀ o ∈ obs, dotN n o.row d = 0) → ∀ j, j < n → d j = 0)
+    (z : Nat → α) (hz : sse n obs z ≤ sse n obs x) : ∀ j, j < n → z j = x j := by
+  have hzz : z = fun j => x j + (z j - x j) := by funext j; ring
+  have hexp := sse_add n obs x (fun j => z j - x j)
+  rw [← hzz, dotN_zero_left n _ _ hne] at hexp
+  have hq := quad_nonneg n obs (fun j => z j - x j) (fun o ho => le_of_lt (hw o ho))
+  have hq0 : quad n obs (fun j => z j - x j) = 0 := by linarith
+  intro j hj
+  have := hrank _ (quad_eq_zero n obs _ hw hq0) j hj
+  linarith
+end Lsq
+
+section Affine
+variable {α : Type} [Field α] [LinearOrder α] [IsStrictOrderedRing α]
+
+omit [LinearOrder α] [IsStrictOrderedRing α] in
+theorem grad_affine (pts : List (WPt α)) (a b : α) :
+    grad 2 (affineObs pts) (pair a b) 0 =
+      a * wsumBy (fun _ => 1) pts + b * wsumBy (fun p => p.x) pts - wsumBy (fun p => p.y) pts ∧
+    grad 2 (affineObs pts) (pair a b) 1 =
+      a * wsumBy (fun p => p.x) pts + b * wsumBy (fun p => p.x * p.x) pts
+        - wsumBy (fun p => p.x * p.y) pts := by
+  induction pts with
+  | nil => simp [affineObs, grad, wsumBy]
+  | cons p ps ih =>
+    obtain ⟨ih0, ih1⟩ := ih
+    unfold affineObs at ih0 ih1 ⊢
+    simp only [List.map_cons, grad, wsumBy, dotN, pair] at ih0 ih1 ⊢
+    rw [ih0, ih1]
+    simp
+    constructor <;> ring
+
+omit [LinearOrder α] [IsStrictOrderedRing α] in
+theorem cramer_normal (sw sx sxx sy sxy : α) (hdet : sw * sxx - sx * sx ≠ 0) :
+    (sxx * sy - sx * sxy) / (sw * sxx - sx * sx) * sw
+      + (sw * sxy - sx * sy) / (sw * sxx - sx * sx) * sx - sy = 0 ∧
+    (sxx * sy - sx * sxy) / (sw * sxx - sx * sx) * sx
+      + (sw * sxy - sx * sy) / (sw * sxx - sx * sx) * sxx - sxy = 0 := by
+  constructor
+  · rw [sub_eq_zero, div_mul_eq_mul_div, div_mul_eq_mul_div, ← add_div, div_eq_iff hdet]; ring
+  · rw [sub_eq_zero, div_mul_eq_mul_div, div_mul_eq_mul_div, ← add_div, div_eq_iff hdet]; ring
+
+omit [IsStrictOrderedRing α] in
+/-- the closed form solves the normal equations of the affine shape `a + b x` -/
+theorem affineLsq_normal (pts : List (WPt α)) (a b : α) (h : affineLsq pts = some (a, b)) :
+    ∀ j, j < 2 → grad 2 (affineObs pts) (pair a b) j = 0 := by
+  unfold affineLsq at h
+  dsimp only at h
+  split at h
+  · cases h
+  · rename_i hdet
+    simp only [Option.some.injEq, Prod.mk.injEq] at h
+    obtain ⟨ha, hb⟩ := h
+    obtain ⟨g0, g1⟩ := grad_affine pts a b
+    intro j hj
+    have : j = 0 ∨ j = 1 := by omega
+    obtain ⟨c0, c1⟩ := cramer_normal _ _ _ (wsumBy (fun p => p.y) pts)
+      (wsumBy (fun p => p.x * p.y) pts) hdet
+    rcases this with rfl | rfl
+    · rw [g0, ← ha, ← hb]; exact c0
+    · rw [g1, ← ha, ← hb]; exact c1
+
+/-- **affine shapes**: whenever the closed form exists it minimises the weighted squared residual
+of `a + b x` over all `(a', b')` (weights ≥ 0) -/
+theorem affineLsq_minimises (pts : List (WPt α)) (a b : α) (h : affineLsq pts = some (a, b))
+    (hw : ∀ p ∈ pts, 0 ≤ p.w) (a' b' : α) :
+    sse 2 (affineObs pts) (pair a b) ≤ sse 2 (affineObs pts) (pair a' b') := by
+  apply normal_equations_minimise 2 _ _ _ (affineLsq_normal pts a b h)
+  intro o ho
+  unfold affineObs at ho
+  rcases List.mem_map.mp ho with ⟨p, hp, rfl⟩
+  exact hw p hp
+end Affine
+
+-- non-vacuity: three points on no common line, unit weights
+example : affineLsq [⟨1, 0, 0⟩, ⟨1, 1, 1⟩, ⟨1, 2, 1⟩] = some ((1 : ℚ) / 6, 1 / 2) := by
+  norm_num [affineLsq, wsumBy]
 
 end VirVerif.C14
